@@ -553,10 +553,11 @@ def c18(tier, rep):
                 for hk in (("map", "and_then") if is_try else ("then",)):
                     q = fp.build(mac, ds, flavour="Res" if is_try else None, handler=hk, hexpr_ev=True)
                     hp.append(fp.to_prog("hx/%s/%s/%s" % (mac, fp.pname(ds), hk), q, [[0]], sub=fp.fail_slots(ds) if is_try else ()))
-    fr3 = e2.run_family("c18profiles", sweep(pp + hp), extra_header=fp.HEADER)
+    lb = let_lazy_bool_programs(macs=("join",))
+    fr3 = e2.run_family("c18profiles", sweep(pp + hp + lb), extra_header=fp.HEADER)
     judge_family(rep, fr3)
-    rep.set("panic_sweep_programs", len(cp) + len(wp) + len(pp) + len(hp))
-    rep.set("rule", "E2 sweep: capture-only chains of length <= 2, captures inside wrappers (closure invoked or not), capture-rich depth profiles and handler programs in all 8 macro kinds: for EVERY distinct event site of the fault-free trace one run in which that event panics — the macro evaluation must panic, nothing of a later step may run, the sequential macros leave exactly the reference's trace; E3: depth profiles x 4 thread-spawning macros x EVERY single panic position (x every failure subset for small try programs) x EVERY order of visible operations; per execution: the macro evaluation panics on the caller, no deadlock, no event of a later step")
+    rep.set("panic_sweep_programs", len(cp) + len(wp) + len(pp) + len(hp) + len(lb))
+    rep.set("rule", "E2 sweep: named branches whose initial value has top-level lazy boolean operators (every reached operand panics once, on all 8 input rows); capture-only chains of length <= 2, captures inside wrappers (closure invoked or not), capture-rich depth profiles and handler programs in all 8 macro kinds: for EVERY distinct event site of the fault-free trace one run in which that event panics — the macro evaluation must panic, nothing of a later step may run, the sequential macros leave exactly the reference's trace; E3: depth profiles x 4 thread-spawning macros x EVERY single panic position (x every failure subset for small try programs) x EVERY order of visible operations; per execution: the macro evaluation panics on the caller, no deadlock, no event of a later step")
 
 
 # -------------------------------------------------------------------------------------------------
@@ -663,6 +664,7 @@ def c15(tier, rep):
         runs = [(["c15", "std", 5, "join,try_join"], "21 symbols, length<=5, join/try_join"), (["c15", "full", 3, ALL8], "32 symbols (all operators, and_then, tuple let), length<=3, 8 configs"), (["c15", "opts", 6, "join,try_join_async"], "4 options + x |> , then, length<=6")]
     else:
         runs = [(["c15", "std", 6, "join,try_join"], "21 symbols, length<=6, join/try_join"), (["c15", "full", 4, ALL8], "32 symbols, length<=4, 8 configs"), (["c15", "opts", 8, "join,try_join_async"], "4 options + x |> , then, length<=8")]
+    runs.append((["c15", "wrap", 9 if tier == "quick" else 10, "join,try_join_async"], "wrapper balance: {x, |>, ~, >>>, <<<, comma}, length<=%d, join/try_join_async" % (9 if tier == "quick" else 10)))
     runs.append((["c15", "lets", ALL8], "depth profiles n<=3,d<=3 x every assignment of {none, let, let mut, let ref, let r#keyword, let mut r#keyword} to the branches x handler x 8 configs"))
     runs.append((["c15", "mid", ALL8], "every operator (plain, ~, wrapper opener, <<<) in front of each separating comma of ^@ / ?^@ / typed <-> x 4 continuations x 8 configs: rejected"))
     classes = {}
@@ -750,12 +752,12 @@ def c14(tier, rep):
 
     exe = e1.build()
     L = 3 if tier == "quick" else 4
-    d = e1_mode(rep, exe, ["c14", L, "abc"], "C14", "split points")
+    d = e1_mode(rep, exe, ["c14", L, "abcd"], "C14", "split points")
     if d:
         rep.set("per_family", d["per_part"])
         rep.set("operands_excluded_by_premise", d["operands_excluded_by_premise"])
         rep.set("distinct_nontrivial", d["inputs"])
-    rep.set("rule", "A: EVERY chain over the 70 operator instances (22 spellings, typed =>[] / <->, <<<, each with/without ~, 10 wrapper forms) with wrappers balanced per step, length <= %d, operands = unique markers, rendered spaced and glued; B: 44 adversarial expression operands, 8 type operands, 5 member operands (closure return types, turbofish commas, generic closers, look-alikes in delimiters / macro calls / literals, comparisons and shifts) x every operand position of every operator x every following operator instance x deferred, also as initial value, let value and handler expression; C: 1-3 branches x handler at every position x let subsets x trailing comma; oracle: parsed structure (combinator, deferred, wrap/unwrap, operand tokens, let ident, branch count, handler) equals the structure the input was rendered from; an operand is admitted only if an independent premise check finds no top-level split point" % L)
+    rep.set("rule", "D: a handler (then / map / and_then) directly after a branch whose last operand is a block (4 block forms, every operator with an expression operand, with / without the optional comma, 1-3 branches, a further branch after the handler): the same structure as with the comma; A: EVERY chain over the 70 operator instances (22 spellings, typed =>[] / <->, <<<, each with/without ~, 10 wrapper forms) with wrappers balanced per step, length <= %d, operands = unique markers, rendered spaced and glued; B: 44 adversarial expression operands, 8 type operands, 5 member operands (closure return types, turbofish commas, generic closers, look-alikes in delimiters / macro calls / literals, comparisons and shifts) x every operand position of every operator x every following operator instance x deferred, also as initial value, let value and handler expression; C: 1-3 branches x handler at every position x let subsets x trailing comma; oracle: parsed structure (combinator, deferred, wrap/unwrap, operand tokens, let ident, branch count, handler) equals the structure the input was rendered from; an operand is admitted only if an independent premise check finds no top-level split point" % L)
 
 
 @check("C02", "exploration")
@@ -906,6 +908,35 @@ def let_value_shape_programs():
     return progs
 
 
+def let_lazy_bool_programs(macs=("join", "join_spawn", "spawn")):
+    """a named (and, as control, an unnamed) branch whose initial value has lazy boolean operators at the top level, EVERY operand
+    with a visible evaluation: each operand that control flow reaches is evaluated exactly once (short-circuit like the plain
+    expression), and the name holds the value of the whole expression"""
+    from . import e2
+
+    A, Bv, C = 'lg("0.0.a", int(0) > 0)', 'lg("0.0.b", int(1) > 0)', 'lg("0.0.c", int(2) > 0)'
+    shapes = ["%s || %s" % (A, Bv), "%s && %s" % (A, Bv), "%s || %s || %s" % (A, Bv, C), "%s && %s && %s" % (A, Bv, C),
+              "%s && %s || %s" % (A, Bv, C), "%s || %s && %s" % (A, Bv, C), "!%s || %s" % (A, Bv)]
+    rows = [[a, b, c] for a in (0, 1) for b in (0, 1) for c in (0, 1)]
+    progs = []
+    for si, shape in enumerate(shapes):
+        for mac in macs:
+            for form in ("let nm = ", "let mut nm = ", ""):
+                if form == "let mut nm = " and mac != "join":
+                    continue
+                f0 = "|v: bool| { ev(\"0.0.f\", &v); v }"
+                if form:
+                    cap = "{ let s = nm; move |v: i32| { ev(\"1.1.f\", &(v, s)); v + 1 } }"
+                else:
+                    cap = "{ move |v: i32| { ev(\"1.1.f\", &v); v + 1 } }"
+                d = "%s! { %s%s -> %s, int(1) ~-> %s }" % (mac, form, shape, f0, cap)
+                r = "{ let nm = (%s); let nm = (%s)(nm); let r1 = int(1); let c = %s; let r1 = c(r1); (nm, r1) }" % (shape, f0, cap)
+                fmt = "\nformat!(\"{:?}\", x)"
+                progs.append(e2.Prog("letbool/%s/%d/%s" % (mac, si, form.replace(" ", "").replace("=", "") or "plain"), "let x = %s;%s" % (r, fmt), "let x = %s;%s" % (d, fmt), rows,
+                                     "Full" if mac == "join" else "Proj", meta={"macro": mac, "dsl": d, "ref": r}))
+    return progs
+
+
 def handler_expr_programs():
     """handler operands whose evaluation is itself visible: evaluated exactly once per macro evaluation, whatever fails
     (compared per trace key, i.e. the count is judged, not the position relative to the steps)"""
@@ -922,6 +953,14 @@ def handler_expr_programs():
                 # whole trace is compared; elsewhere the count per trace key is judged
                 cmp = "TryAsync" if (is_try and "async" in mac) else ("Full" if mac in ("join", "try_join") else "Proj")
                 progs.append(fp.to_prog("hexpr/%s/%s/%s" % (mac, fp.pname(ds), hk), p, [[0]] if is_try else fp.offset_rows(), sub=sub, cmp=cmp))
+                if "async" in mac:
+                    # the handler operand is a user expression like any other: an async macro evaluates it only once its future is polled
+                    from . import dsl, e2
+                    d, r = dsl.program_dsl(p), dsl.program_ref(p, anyof=False)
+                    bo_ = "trt().block_on" if "spawn" in mac else "futures::executor::block_on"
+                    rb = "let x = futures::executor::block_on(%s);\nformat!(\"events before the first poll: 0 / {:?}\", x)" % r
+                    mb = "let f = %s;\nlet before = log_len();\nlet x = %s(f);\nformat!(\"events before the first poll: {} / {:?}\", before, x)" % (d, bo_)
+                    progs.append(e2.Prog("hexpr-lazy/%s/%s/%s" % (mac, fp.pname(ds), hk), rb, mb, [[0]], "Value", meta={"macro": mac, "dsl": d, "ref": r}))
     return progs
 
 
@@ -1061,10 +1100,10 @@ def c10(tier, rep):
     cp, _ = fam_captures.chain_programs(tier)
     fr3 = e2.run_family("c11chains", cp)
     judge_family(rep, fr3)
-    hp = handler_expr_programs()
+    hp = handler_expr_programs() + let_lazy_bool_programs()
     fr4 = e2.run_family("c10hexpr", hp, extra_header=fp.HEADER)
     judge_family(rep, fr4)
-    rep.set("rule", "E1: EVERY chain over the 70 operator instances up to length %d (plain, block and closure operands; + a second branch with let, deferred steps, a capture and a handler) in 8 configs, each user operand a unique marker: every marker occurs exactly once in the expansion's token stream; E2: depth profiles over a move-only, non-Clone, drop-logging token in all 12 macros with every failure subset (event multiset per branch, created = dropped, dropped-id multiset equal the reference: nothing cloned, leaked or dropped twice) and all typed chains of length <= 2 (callbacks invoked exactly as often, with the same arguments, as the documented method invokes them), plus the capture-dense chain family of C11 (every block operand evaluated and every captured callable used exactly once)" % L)
+    rep.set("rule", "E1: EVERY chain over the 70 operator instances up to length %d (plain, block and closure operands; + a second branch with let, deferred steps, a capture and a handler) in 8 configs, each user operand a unique marker: every marker occurs exactly once in the expansion's token stream; E2: depth profiles over a move-only, non-Clone, drop-logging token in all 12 macros with every failure subset (event multiset per branch, created = dropped, dropped-id multiset equal the reference: nothing cloned, leaked or dropped twice) and all typed chains of length <= 2 (callbacks invoked exactly as often, with the same arguments, as the documented method invokes them), plus the capture-dense chain family of C11 (every block operand evaluated and every captured callable used exactly once); named / unnamed branches whose initial value has top-level `||` / `&&` with a visible evaluation in every operand (each reached operand exactly once, on all 8 input rows)" % L)
     sample_family(rep, tp, fr)
 
 
@@ -1072,7 +1111,7 @@ def c10(tier, rep):
 def c07(tier, rep):
     from . import e1, e3a, e3t, fam_agree as fa, fam_async, fam_profiles as fp, fam_threads
 
-    progs = fa.pair_programs(tier) + fa.send_not_sync_programs()
+    progs = fa.pair_programs(tier) + fa.send_not_sync_programs() + fa.send_future_programs()
     fr = e2.run_family("c07pairs", progs, extra_header=fp.HEADER)
     judge_family(rep, fr)
     cp = fa.chain_pair_programs()
@@ -1120,7 +1159,7 @@ def c07(tier, rep):
                     rep.violate("%s | value set" % pid, "the set of values %s can return over all wake-up orders and failure subsets differs from the one of try_join_async! (%d vs %d distinct (row, value) pairs) — e.g. fail-fast behaviour or which failing branch wins" % (pid, d["nvalues"], o["nvalues"]), {"spawn": d.get("sample"), "plain": o.get("sample")})
     rep.set("plain_vs_spawn_value_sets_compared", vs_n)
     rep.set("disagreements_checked", fr.rows + fr2.rows + npairs + cmp_n)
-    rep.set("rule", "(a) the SAME generated program (depth profiles plain / capture-rich / handler+let with every failure subset; every typed chain of length <= 2 as first branch) instantiated under both names of each of the 12 pairs {plain, spawn variant, alias}: results and per-branch traces compared directly, real macro against real macro; (b) real expansion text (rustc -Zunpretty=expanded) of alias!{P} == long!{P} for P over the 40-input feature corpus x 4 alias pairs, and join_impl called as a library (E1) == the real proc-macro; (c) under the thread scheduler / deterministic executor the outcome set explored for an alias equals the one of its long name and every outcome equals the plain macro's reference")
+    rep.set("rule", "(a') Send parity: the future of each task-spawning macro over Send + 'static branches passes a `T: Send` bound and is driven on another OS thread, like the plain macro's; (a) the SAME generated program (depth profiles plain / capture-rich / handler+let with every failure subset; every typed chain of length <= 2 as first branch) instantiated under both names of each of the 12 pairs {plain, spawn variant, alias}: results and per-branch traces compared directly, real macro against real macro; (b) real expansion text (rustc -Zunpretty=expanded) of alias!{P} == long!{P} for P over the 40-input feature corpus x 4 alias pairs, and join_impl called as a library (E1) == the real proc-macro; (c) under the thread scheduler / deterministic executor the outcome set explored for an alias equals the one of its long name and every outcome equals the plain macro's reference")
     sample_family(rep, progs, fr)
 
 
